@@ -72,12 +72,19 @@ def run_child(spec, hseed, tag, full=None):
         shutil.rmtree(wd, ignore_errors=True)
 
 
-def compare(inputs, tier, seed, tag, seeds=None):
+def compare(inputs, tier, seed, tag, seeds=None, parallel=False):
     """returns {input_id: [Discrepancy...]}, meta by input"""
     seeds = seeds or hash_seeds(tier, seed)
     outs = {}
-    for hs in seeds:
-        outs[hs] = run_child({"inputs": inputs}, hs, tag)
+    if parallel:
+        from concurrent.futures import ThreadPoolExecutor
+
+        with ThreadPoolExecutor(len(seeds)) as ex:
+            futs = {hs: ex.submit(run_child, {"inputs": inputs}, hs, f"{tag}h{k}") for k, hs in enumerate(seeds)}
+            outs = {hs: f.result() for hs, f in futs.items()}
+    else:
+        for hs in seeds:
+            outs[hs] = run_child({"inputs": inputs}, hs, tag)
     result = {inp["id"]: [] for inp in inputs}
     meta = {}
     for hs, o in outs.items():
@@ -352,6 +359,11 @@ def plan(tier, seed):
     specs.append({"kind": "bpseq", "many": [[H, 0, 10], [T, 0, 4], [H, 1, 11]], "gen_seed": seed * 1000 + 900, "tier": tier, "seed": seed})
     if tier != "quick":
         specs.append({"kind": "bpseq", "many": [[H, 0, 12], [T, 1, 5], [H, 0, 13]], "gen_seed": seed * 1000 + 901, "tier": tier, "seed": seed})
+    # ONE conflict component of nine mutually crossing stems: 9! = 362 880 orderings of a single group, each giving a
+    # notation of its own (a limit, a sample or a cut inside the per-group enumeration acts here, not on many small groups)
+    specs.append({"kind": "bpseq", "ladders": [[9, 1, 0]], "gen_seed": seed * 1000 + 902, "tier": tier, "seed": seed})
+    if tier != "quick":
+        specs.append({"kind": "bpseq", "ladders": [[9, 2, 1]], "gen_seed": seed * 1000 + 903, "tier": tier, "seed": seed})
     nmap, mbatch = (24, 12) if tier == "quick" else (400, 25)
     for k in range(nmap // mbatch):
         specs.append({"kind": "mapping", "n": mbatch, "gen_seed": seed * 1000 + 500 + k, "tier": tier, "seed": seed})
@@ -401,13 +413,18 @@ def run_shard(spec) -> ShardResult:
             # structures with MORE THAN 1000 admissible notations (independent pseudoknots multiply them): size limits,
             # truncation and batching inside the enumeration would act here and nowhere else
             structs = [ssref.repeated_motif([tuple(c) for c in chords], hp, copies) for chords, hp, copies in spec["many"]]
+        elif spec.get("ladders"):
+            structs = [ssref.ladder(*a)[:2] for a in spec["ladders"]]
         else:
             structs = collect_structures(spec["n"], spec["gen_seed"])
         inputs = [{"id": f"s{spec['gen_seed']}_{k}", "kind": "bpseq", "text": ssref.bpseq_text(s[0], s[1]),
                    "seq": s[0], "pairs": [list(p) for p in s[1]]} for k, s in enumerate(structs)]
         tag = f"b{spec['gen_seed']}"
-    result, meta = compare(inputs, tier, seed, tag)
     seeds = hash_seeds(tier, seed)
+    if spec.get("ladders"):
+        # a quarter of a minute per interpreter: two (quick) or four interpreters, side by side
+        seeds = [seeds[0], seeds[-1]] if tier == "quick" else [seeds[0], seeds[1], seeds[4], seeds[-1]]
+    result, meta = compare(inputs, tier, seed, tag, seeds=seeds, parallel=bool(spec.get("ladders")))
     for inp in inputs:
         m = meta.get(inp["id"], {})
         if inp["kind"] == "file":
@@ -425,7 +442,7 @@ def run_shard(spec) -> ShardResult:
             cj = {"mapping": {k: v for k, v in inp["case"].items() if k != "entries"}, "n_entries": len(ents)}
         else:
             nt = m.get("n_all", 0) >= 2
-            labs = ["bpseq"] + (["all_dot_brackets>=2"] if nt else []) + (["all_dot_brackets>1000"] if m.get("n_all", 0) > 1000 else [])
+            labs = ["bpseq"] + (["all_dot_brackets>=2"] if nt else []) + (["all_dot_brackets>1000"] if m.get("n_all", 0) > 1000 else []) + (["one-group-of-9-crossing-stems"] if spec.get("ladders") else [])
             cj = {"seq": inp["seq"], "pairs": inp["pairs"], **m}
         res.note_case(cj, nt, labs)
         for d in result[inp["id"]]:
